@@ -395,8 +395,9 @@ class OverhangFilter(Module):
                 raise ValueError(f"Wronly specified print direction {direction}, should be e.g. \"+x\", \"-y\"")
 
             # Print direction
+            sign = -1.0 if '-' in direction else +1.0
             direction = [0.0, 0.0, 0.0]
-            direction[axes[0]] = -1.0 if '-' in direction else +1.0
+            direction[axes[0]] = sign
         direction = np.asarray(direction, dtype=np.float64).flatten()
         if direction.size < 3:
             direction = np.pad(direction, (0, 3-direction.size), 'constant', constant_values=0.0)
